@@ -237,6 +237,13 @@ def c03_load(member, model, tree, loaders, mk_data, user_bug=False):
                     if dt == DebugTrail.ALL:
                         if got != exp_sets: return False          # rejected with exactly the set of unknown keys
                     elif len(got) != 1 or got[0] not in exp_sets: return False
+                if all(p[0] == "missing" for p in problems):
+                    # a field is taken from exactly its path: when only required keys are absent, the report names exactly those keys, node by node
+                    mk = sorted(sorted(v) for v in missing_keys(problems).values())
+                    got = sorted(sorted(e.fields) for t, e in leaves(o[2]) if type(e).__name__ == "NoRequiredFieldsLoadError")
+                    if dt == DebugTrail.ALL:
+                        if got != mk: return False
+                    elif len(got) != 1 or got[0] not in mk: return False
             else:
                 if o[0] != "ok": return False
                 if not same_obj(member, o[2], expected_object(member, model, out, prune(extras) if member["extra_in"] != "kwargs" else extras)):
@@ -257,7 +264,15 @@ def expected_errors(problems):
         out.append((trail + rel, REASON_CLASS[reason], inp, rel))
     return out
 
-def err_matches(t, e, exp):
+def missing_keys(problems):
+    """trail of a node -> the set of its required keys that are absent (what NoRequiredFieldsLoadError.fields must name)"""
+    out = {}
+    for reason, detail, trail, inp in problems:
+        if reason == "missing": out.setdefault(trail, set()).add(detail)
+    return out
+
+def err_matches(t, e, exp, mk=None):
+    if mk is not None and type(e).__name__ == "NoRequiredFieldsLoadError" and t in mk and set(e.fields) != mk[t]: return False
     return any(t == et and type(e).__name__ in ecls and (getattr(e, "input_value", None) is einp or getattr(e, "input_value", None) == einp)
                for et, ecls, einp, _ in exp)
 
@@ -269,22 +284,24 @@ def c05_model(member, model, tree, loaders, mk_data):
         ref_load(member, model, tree, mk_data(), strict, problems, out, extras)
         if not problems: continue
         exp = expected_errors(problems)
+        mkeys = missing_keys(problems)
         o = outcome(loaders[(strict, DebugTrail.ALL)], mk_data())
         if o[0] != "load_error": return False
         ls = leaves(o[2])
         if len(ls) != len(exp): return False
         for t, e in ls:
-            if not err_matches(t, e, exp): return False
+            if not err_matches(t, e, exp, mkeys): return False             # incl.: a missing-keys error names exactly the absent required keys of its node
         for et, ecls, einp, _ in exp:
             if sum(1 for t, e in ls if t == et and type(e).__name__ in ecls) != 1: return False
         o = outcome(loaders[(strict, DebugTrail.FIRST)], mk_data())
         if o[0] != "load_error": return False
         ls = leaves(o[2])
-        if len(ls) != 1 or not err_matches(ls[0][0], ls[0][1], exp): return False
+        if len(ls) != 1 or not err_matches(ls[0][0], ls[0][1], exp, mkeys): return False
         o = outcome(loaders[(strict, DebugTrail.DISABLE)], mk_data())
         if o[0] != "load_error": return False
         ls = leaves(o[2])
         if len(ls) != 1: return False
+        if type(ls[0][1]).__name__ == "NoRequiredFieldsLoadError" and set(ls[0][1].fields) not in list(mkeys.values()): return False
         if not any(ls[0][0] == rel and type(ls[0][1]).__name__ in ecls for et, ecls, einp, rel in exp): return False
     return True
 
